@@ -528,6 +528,38 @@ def check_naming(res, tables, fired, scratch, drv, thorough):
             res.violation(f"# nosec by ID and by name behave differently (or do not suppress) for {i}/{n}",
                           {"kind": "naming", "mode": "nosec", "id": i, "name": n, "program": prog, "line": line,
                            "still_reported": {"by_id": r["id"], "by_name": r["name"]}})
+    # ---------- a nosec naming ONE check leaves another finding of the same line alone, by ID and by name alike (seeded change C18-m6: a name the
+    #            comment grammar could no longer read — `md5`, `jinja2_autoescape_false` — degraded into a blanket nosec, which still hides the named finding)
+    import ast as _ast
+    progs2, meta2 = [], []
+    for i, n in entries:
+        prog, line, _ = fired[i]
+        ls = prog.split("\n")
+        ctl_stmt, ctl_id = ("exec(q_ctl)", "B102") if i == "B101" else ("assert q_ctl", "B101")
+        cand = list(ls)
+        cand[line - 1] = ls[line - 1] + "; " + ctl_stmt
+        try:
+            _ast.parse("\n".join(cand))
+        except SyntaxError:
+            continue
+        base = "\n".join(cand)
+        for how, tok in (("id", i), ("name", n)):
+            progs2.append(with_comment(base, line, "# nosec " + tok))
+            meta2.append((i, n, how, ctl_id, line))
+    out2, _ = scan_batch(scratch, progs2)
+    per2 = {}
+    for (i, n, how, ctl_id, line), o in zip(meta2, out2):
+        per2.setdefault(i, {})[how] = (any(x["id"] == ctl_id and x["line"] == line for x in o["issues"]), any(x["id"] == i and x["line"] == line for x in o["issues"]))
+    for i, n in entries:
+        if i not in per2 or len(per2[i]) < 2:
+            continue
+        res.case(f"nosec-other:{i}", True)
+        res.count("naming:nosec-leaves-others")
+        (ctl_by_id, named_by_id), (ctl_by_name, named_by_name) = per2[i]["id"], per2[i]["name"]
+        if not ctl_by_id or not ctl_by_name or named_by_id or named_by_name:
+            res.violation(f"# nosec naming {i}/{n}: another finding on the same line is withheld too, or the named one is not (by ID vs by name)",
+                          {"kind": "naming", "mode": "nosec-leaves-others", "id": i, "name": n, "other_finding_still_reported": {"by_id": ctl_by_id, "by_name": ctl_by_name},
+                           "named_finding_still_reported": {"by_id": named_by_id, "by_name": named_by_name}})
     # ---------- legacy profile / -t / -s through the real CLI
     files = {}
     d = os.path.join(scratch.root, "naming")
